@@ -16,7 +16,7 @@ INFO = {
     "outside": ["rename shapes outside T13/T13b and the repository's deprecated fixture", "files longer than the bound"],
     "stubs": ["memfs"],
 }
-BUDGET = {"quick": 220, "thorough": 1100}
+BUDGET = {"quick": 220, "thorough": 800}
 
 VALS = {"bool": ["y", "n"], "int": ["5", "12"], "hex": ["0x10", "0x2a"], "string": ['"s"', '"x y"'], "float": ["1.5", "2.0"]}
 
